@@ -84,7 +84,11 @@ Definition prims_of (hs : list session) (o : op) : list prim :=
       let s := handle hs h in
       let no := match o with Some v => v | None => next_out s end in
       let ni := match i with Some v => v | None => next_in s end in
-      if (no <=? 0) || (ni <=? 0) then [] else set_seq_num_prims s no ni
+      (* only a number that is passed is asserted positive; an omitted one is taken from the
+         session object unchecked (it is <= 0 after a stored counter below 0 was loaded) *)
+      let bad_o := match o with Some v => v <=? 0 | None => false end in
+      let bad_i := match i with Some v => v <=? 0 | None => false end in
+      if bad_o || bad_i then [] else set_seq_num_prims s no ni
   | _ => []
   end.
 
